@@ -70,6 +70,7 @@ class FakeProc(object):
         self.pid   = FakeProc.next_pid[0]
         FakeProc.next_pid[0] += 1
         self.code  = None
+        self.dying = None
         self.collected = 0
         FakeProc.procs[self.pid] = self
 
@@ -77,7 +78,21 @@ class FakeProc(object):
         return self.code
 
     def wait(self, timeout=None):
-        self.world.sched.block_until(lambda: self.code is not None)
+        w = self.world
+        if timeout is None:
+            w.sched.block_until(lambda: self.code is not None)
+        else:
+            # a bounded wait: the process ends in time, or the environment
+            # lets the time run out first
+            w.bounded_waits += 1
+            w.sched.bump(force=True)
+            w.sched.block_until(lambda: self.code is not None
+                                        or w.patience_over)
+            if self.uid in w.timed_out:
+                # the time limit passed while the process was alive (it may
+                # be gone by the time this thread runs again)
+                import subprocess
+                raise subprocess.TimeoutExpired('fake', timeout)
         self.collected += 1
         return self.code
 
@@ -92,6 +107,10 @@ class FakeProc(object):
 class FakeSP(object):
     STDOUT = -2
     PIPE   = -1
+
+    def __getattr__(self, name):
+        import subprocess
+        return getattr(subprocess, name)
 
     def __init__(self, world):
         self.world = world
@@ -120,6 +139,13 @@ class FakeOS(object):
         p = FakeProc.procs.get(pid)
         if p is None or p.code is not None:
             raise OSError('no such process')
+        if p.world.scn.get('slow_death'):
+            # the signal is delivered, the process goes away a little later
+            # (uninterruptible I/O, a full process table, ...)
+            if p.dying is None:
+                p.dying = -int(sig)
+                p.world.sched.bump(force=True)
+            return
         p.exit(-int(sig))
 
 
@@ -236,6 +262,9 @@ class World(object):
                                 if i == 0 else 0.0)
                       for i in range(scn['n_tasks'])]
         self.started_up = False
+        self.bounded_waits = 0
+        self.patience_over = False
+        self.timed_out = set()
         self.cancel_uids = list(scn.get('cancel') or [])
 
     # ----------------------------------------------------------------------
@@ -260,6 +289,23 @@ class World(object):
                 s.yield_point()
                 self.procs[uid].exit(code)
             return t_exit
+
+        def mk_reaper(uid):
+            def t_reaper():
+                s.block_until(lambda: uid in self.procs and
+                                      self.procs[uid].dying is not None)
+                s.yield_point()
+                self.procs[uid].exit(self.procs[uid].dying)
+            return t_reaper
+
+        def t_impatient():
+            # time runs out for whoever waits with a time limit
+            s.block_until(lambda: self.bounded_waits > 0)
+            s.yield_point()
+            self.timed_out = set(u for u, p in self.procs.items()
+                                 if p.code is None)
+            self.patience_over = True
+            s.bump(force=True)
 
         def t_startup():
             # the task reports that it started up in time
@@ -288,6 +334,11 @@ class World(object):
             s.spawn('clock', t_clock).daemon = True
         if scn.get('startup'):
             s.spawn('startup', t_startup).daemon = True
+        if scn.get('slow_death'):
+            for i in range(scn['n_tasks']):
+                s.spawn('reaper.t%d' % (i + 1),
+                        mk_reaper('t%d' % (i + 1))).daemon = True
+            s.spawn('impatient', t_impatient).daemon = True
         if self.cancel_uids and not scn.get('cancel_first'):
             s.spawn('control', t_control)
         for i, code in enumerate(scn['exit_codes']):
@@ -531,6 +582,10 @@ def scenarios(quick):
         add('cancel', 1, (code,), cancel=['t1'], instant_exit=True)
         add('timeout', 1, (code,), timeout=1.0, ticks=2, instant_exit=True)
     add('cancel', 2, (0, 0), cancel=['t1'], instant_exit=True)
+    # a process which takes its time to die after the kill
+    add('cancel', 1, (None,), cancel=['t1'], slow_death=True)
+    add('cancel', 2, (None, 0), cancel=['t1'], slow_death=True)
+    add('timeout', 1, (None,), timeout=1.0, ticks=2, slow_death=True)
     # a start-up limit which the task meets: it runs on without any limit
     add('startup', 1, (0,), startup=1.0, ticks=2)
     add('startup', 1, (1,), startup=1.0, ticks=2)
